@@ -181,6 +181,31 @@ def run(tier, seed):
             if o["limiter_after"] is not None:
                 ctx.divergence("a limiter stayed installed after a top-level call returned", {"history": h, "call": i + 1})
     ctx.bump("call_histories_replayed", len(hs))
+    # ONE runner object serving histories in successive event loops (a script calling asyncio.run(...) repeatedly): whatever
+    # the runner keeps between calls must not be tied to the loop or to the calls it served before
+    from hypergraph import AsyncRunner
+    reuse = [h for h in hs if any(c["k"] for c in h) and all(limiter.WIDEST[c["kind"]] > 0 for c in h)][: (24 if thorough else 8)]
+    shared = AsyncRunner()
+    for n_used, h in enumerate(reuse):
+        obs, ctl = limiter.replay(h, lambda keys: keys[0], runner=shared)
+        ctx.count()
+        ctx.traces()
+        wit = {"history": h, "runner": f"one AsyncRunner object, {n_used} histories served before in other event loops", "observed": obs}
+        if obs is None:
+            ctx.violation("deadlock", wit, f"a call of the history {[(c['kind'], c['k']) for c in h]} did not terminate on a runner that served {n_used} histories before")
+            break
+        bad = [(i, o) for i, o in enumerate(obs) if o["outcome"] != limiter.EXPECTED_OUTCOME[o["kind"]]]
+        if bad:
+            i, o = bad[0]
+            ctx.violation("reused-runner-changes-outcome", wit,
+                          f"call {i + 1} ({o['kind']}, max_concurrency={o['k']}) ended as {o['outcome']} on a runner that served {n_used} histories before; on a fresh runner it ends as {limiter.EXPECTED_OUTCOME[o['kind']]}")
+            break
+        over = [(i, o) for i, o in enumerate(obs) if o["limit"] and o["max_inflight"] > o["limit"]]
+        if over:
+            i, o = over[0]
+            ctx.violation("bound-exceeded-after-history", wit, f"call {i + 1} ({o['kind']}, max_concurrency={o['k']}) had {o['max_inflight']} bodies executing on a reused runner")
+            break
+    ctx.bump("reused_runner_histories", len(reuse))
     if kinds_seen != set(limiter.EXPECTED_OUTCOME):
         raise RuntimeError(f"call kinds never replayed: {set(limiter.EXPECTED_OUTCOME) - kinds_seen}")
     ctx.sample({"shape(depth,fan,map_at)": shapes[-1], "k": 2, "tasks": len(work[-1][3]["tasks"]), "frames": len(work[-1][3]["frames"])})
